@@ -28,6 +28,11 @@ func runC15(c *Ctx) {
 	c15R3(c, "C15.R3")
 	c15R4(c, "C15.R4")
 	c15R5(c, "C15.R5")
+	// imported: credit/expiry conditions of authentication and authorisation (clause "a user whose credit is exhausted
+	// or whose expiry has passed cannot start a session")
+	c.importing = "C07"
+	c07R5(c, "C07.R5")
+	c.importing = ""
 }
 
 // inserterOf: the unique non-test function that inserts a non-nil value into the map field.
